@@ -39,6 +39,7 @@ MonInit == [ call |-> NoCall,
              cur |-> 0,            \* connection the client is using (last opened, not closed by it)
              nconn |-> 0,
              stored |-> "none",    \* credentials visible through the public token/key properties
+             okcr |-> "none",      \* credentials of the latest explicit authentication that succeeded: the configured ones, whatever the object shows
              fly |-> 0,            \* messages in flight
              mustHS |-> 0,         \* after the 12 h jump: next packet on this connection must be a handshake
              mustNew |-> 0,        \* after the lifetime jump: next packet must be a handshake on a connection newer than this
@@ -97,7 +98,7 @@ OnTx(m, e) ==
       isHS == e.t = "HS"
       isData == e.t = "DATA"
       v3 == Ver = 3
-      wantTok == IF m.call.op = "auth" /\ m.call.cr # "cached" THEN m.call.cr ELSE m.stored
+      wantTok == IF m.call.op = "auth" /\ m.call.cr # "cached" THEN m.call.cr ELSE IF m.okcr # "none" THEN m.okcr ELSE m.stored
       b1 == IF v3 /\ ~isHS /\ ~cn.hsok THEN {<<"C07", "data written before a successful handshake on this connection">>} ELSE {}
       b2 == IF v3 /\ isHS /\ e.tok # wantTok THEN {<<"C07", "handshake request does not carry the configured token">>} ELSE {}
       b3 == IF v3 /\ cn.last >= 0 /\ ~CtrOK(cn.last, e.ctr)
@@ -236,7 +237,7 @@ OnRet(m, e) ==
                THEN {<<"C06", "authentication failed although the device's reply proved knowledge of the key">>} ELSE {}
   IN [ m EXCEPT !.bad = @ \cup b1 \cup b2 \cup b3 \cup b4 \cup b5 \cup b5b \cup b6 \cup b7 \cup b8 \cup b9 \cup b10 \cup b11 \cup b12 \cup b13 \cup b14 \cup b15 \cup b16 \cup b16b \cup b17 \cup b18,
                 !.call = NoCall, !.stored = e.stored, !.prevFailed = ~ok, !.afterAuth = (cl.op = "auth" /\ ok),
-                !.hadGood = @ \/ e.stored = "good",
+                !.hadGood = @ \/ e.stored = "good", !.okcr = IF cl.op = "auth" /\ ok /\ cl.cr # "cached" THEN cl.cr ELSE @,
                 !.conns = [c \in 1..Len(m.conns) |-> IF c = m.cur /\ e.r = "frames" THEN [m.conns[c] EXCEPT !.stray = 0, !.straybad = 0] ELSE m.conns[c]] ]
 
 (* a device-level operation (AirConditioner.refresh) built on one or more exchanges has returned:      *)
